@@ -49,6 +49,36 @@ def props_on(s):
         bad.append(('parseLines raised %s: %s' % (type(e).__name__, e), 'C18:exception'))
     if joined is not None and joined != s:
         bad.append(('parseLines: concatenated full texts %r differ from the input' % (joined[-40:],), 'C18:lossless-lines'))
+    # a parser that has already worked through another text behaves like a fresh one (the plugin re-uses one parser for everything)
+    used = GcodeParser()
+    for _g in used.parseLines('G1 X1 ; warm up\r\nN3 M117 hi*7\n   ;c\nG28'):
+        pass
+    fresh = GcodeParser()
+    used.parse(s); fresh.parse(s)
+    a = (used.gcode, used.subCode, used.lineNumber, used.parameters, used.fullText, used.commandString, used.offset, used.length)
+    b = (fresh.gcode, fresh.subCode, fresh.lineNumber, fresh.parameters, fresh.fullText, fresh.commandString, fresh.offset, fresh.length)
+    if a != b:
+        bad.append(('a re-used parser reads the text as %r, a fresh one as %r' % (a, b), 'C18:reuse'))
+    # ... also when the text it worked through before is nearly the same line (another sub code, other blanks, another line number) and
+    # its normalised forms were read -- whatever a parser remembers between lines must not show
+    import re as _re
+    m = _re.match(r'^(\s*(?:[Nn]\s*\d+\s*)?)([GgMmTt]\s*\d+)(\.\d+)?(.*)$', s, _re.S)
+    if m and len(s) < 200:
+        near = [m.group(1) + m.group(2) + ('.3' if m.group(3) != '.3' else '.2') + m.group(4), m.group(1) + m.group(2) + m.group(4), '  ' + s, s.lstrip(),
+                'N7 ' + s.lstrip()]
+        for v in near:
+            if v == s:
+                continue
+            used = GcodeParser()
+            used.parse(v)
+            _ = (used.commandString, used.parameterDict, used.stringify())
+            used.parse(s)
+            a = (used.gcode, used.subCode, used.lineNumber, used.parameters, used.fullText, used.commandString, used.stringify(), used.offset, used.length)
+            fresh = GcodeParser(); fresh.parse(s)
+            b = (fresh.gcode, fresh.subCode, fresh.lineNumber, fresh.parameters, fresh.fullText, fresh.commandString, fresh.stringify(), fresh.offset, fresh.length)
+            if a != b:
+                bad.append(('after reading %r, a re-used parser reads the text as %r, a fresh one as %r' % (v, a, b), 'C18:reuse'))
+                break
     # stability of the normalised command string
     q = GcodeParser(); q.parse(s)
     if q.gcode is not None:
@@ -75,7 +105,9 @@ def oracle(ctx, budget=1, replay=None, hints=None):
     rl = LS.random_lines(ctx.rng, 3000 * budget)
     multi = [''.join(ctx.rng.choice(rl) for _ in range(ctx.rng.randint(2, 5))) + ctx.rng.choice(['', '; tail comment', ';', ' ', 'M84', '; c\r', 'G1 X1 ; c'])
              for _ in range(600 * budget)]
-    extra = rl + multi + [' N5 G1 X1', 'N1 G28*12 ; home\n', '   N0123   G028  X  *107   ; Comment   \r\n']
+    # characters outside ASCII are text like any other (a byte order mark at the start of a file or where two files were joined, accents in comments)
+    uni = ['\ufeffG1 X1\n', '\ufeffG28\nG1 X1 ; c\n\ufeffM117 hi\n', 'G1 X1\n\ufeff', '\ufeff', ' \ufeff G1', 'M117 caf\xe9\n', '; \u00b5m\r\nG1 X1', 'G1 X1 \u00a0Y2\n', '\u2028G1 X1', 'G1\x0bX1\n', 'G1 X1\x0c\nG28']
+    extra = rl + multi + uni + [' N5 G1 X1', 'N1 G28*12 ; home\n', '   N0123   G028  X  *107   ; Comment   \r\n']
     for s in itertools.chain(strings, extra):
         n += 1
         for what, sig in props_on(s):
